@@ -50,6 +50,10 @@ def run_shards(snap, module, shard_args, envs=None, timeout=1800, max_workers=No
         envs = snap.env()
     if isinstance(envs, dict):
         envs = [envs] * n
+    # string-hash diversity: shard i runs under PYTHONHASHSEED=i unless the check chose a seed itself (set / dict-of-str
+    # iteration order inside the library must not matter to any oracle; a violation records the seed it was seen under)
+    envs = [dict(e, PYTHONHASHSEED=str(i % 16)) if e.get("PYTHONHASHSEED") == "0" and not os.environ.get("VERIF_FIXED_HASHSEED") else e
+            for i, e in enumerate(envs)]
     max_workers = max_workers or min(n, os.cpu_count() or 4)
     with ThreadPoolExecutor(max_workers=max_workers) as ex:
         futs = [ex.submit(run_one, snap, module, a, e, timeout) for a, e in zip(shard_args, envs)]
